@@ -28,6 +28,66 @@ SHELL_SPECIAL = set("|&;<>()$`\\\"' \t\n*?[#~!{}^")
 NINJA_ESCAPES = {ord("\n"), ord(" "), ord(":"), ord("$"), ord("{"), ord("}")}
 
 
+def r_input_classes(prog, rep):
+    """shared with C18 (order-only vs implicit inputs decide what triggers a rebuild)"""
+    ri = rep.rule("R-INPUT-CLASSES", "explicit, implicit and order-only inputs: `|` starts the implicit and `||` the order-only inputs; the parser counts the explicit "
+                                     "inputs before `|` and the implicit ones between `|` and `||`; the command's accessors partition its input list in that "
+                                     "order with those counts; the loader passes both counts on in that order", floor=7)
+    pb = prog.fn("ParserImpl::parseBuildSpecifier")
+    bfp = BranchFacts(pb, kill="assign")
+    decls = {v["n"]: pb.nodes[v["init"]] for d in pb.nodes if d.get("k") == "decl" for v in d["vars"] if "init" in v}
+    consumes = [c for c in pb.calls() if (c.get("fn") or "").endswith("consumeIfToken")]
+    kinds = [[x.get("n") for x in arg_nodes(c)[0].walk() if x.get("k") == "ref" and x.get("dk") == "enumconst"][0] for c in consumes if arg_nodes(c)]
+    pk = [k_ for k_ in kinds if k_ in ("Pipe", "PipePipe")]
+    ri.check(pk == ["Pipe", "PipePipe"], "parseBuildSpecifier|pipe-then-pipepipe", "%s" % pk, "input class separators are consumed as %s" % pk, pb)
+    ne, ni = decls.get("numExplicitInputs"), decls.get("numImplicitInputs")
+    pipes = {k_: c for k_, c in zip(kinds, consumes)}
+    ok = ne is not None and expr_plain(ne) == "inputs.size()" and "Pipe" in pipes and \
+        cfg.pos_of(pb, [n for n in pb.nodes if n.get("k") == "decl" and any(v["n"] == "numExplicitInputs" for v in n["vars"])][0]) is not None
+    if ok:
+        dne = [n for n in pb.nodes if n.get("k") == "decl" and any(v["n"] == "numExplicitInputs" for v in n["vars"])][0]
+        dni = [n for n in pb.nodes if n.get("k") == "decl" and any(v["n"] == "numImplicitInputs" for v in n["vars"])]
+        # explicit count is taken before `|` is consumed; implicit count after it and before `||`
+        ok = cfg.path_exists(pb, cfg.pos_of(pb, pipes["Pipe"]), lambda p, e, t=cfg.pos_of(pb, dne): p == t) is None and len(dni) == 1 and \
+            cfg.dominated_by(pb, cfg.pos_of(pb, dni[0]), lambda p, e, t=cfg.pos_of(pb, pipes["Pipe"]): p == t)[0] and \
+            cfg.path_exists(pb, cfg.pos_of(pb, pipes["PipePipe"]), lambda p, e, t=cfg.pos_of(pb, dni[0]): p == t) is None and \
+            expr_plain(ni).replace(" ", "") in ("(inputs.size()-numExplicitInputs)",)
+    ri.check(ok, "parseBuildSpecifier|counts", "", "explicit / implicit counts are not taken at the `|` and `||` boundaries", pb)
+    act = pb.calls("ParseActions::actOnBeginBuildDecl")
+    ri.check(len(act) == 1 and [expr_plain(a) for a in arg_nodes(act[0])][3:5] == ["numExplicitInputs", "numImplicitInputs"], "parseBuildSpecifier|counts-passed-in-order", "",
+             "counts passed to the actions as %s" % ([expr_plain(a) for a in arg_nodes(act[0])][3:5] if act else None), pb)
+    bd2 = prog.fn("ManifestLoaderImpl::actOnBeginBuildDecl")
+    cons = [n for n in bd2.nodes if n.get("k") in ("construct", "new") and "ninja::Command::Command" in (n.get("fn") or "")]
+    cons = cons or [x for n in bd2.nodes if n.get("k") == "new" for x in n.walk() if x.get("k") == "construct" and "Command::Command" in (x.get("fn") or "")]
+    okc = len(cons) == 1 and [expr_plain(a) for a in arg_nodes(cons[0])][-2:] == ["numExplicitInputs", "numImplicitInputs"] and \
+        [expr_plain(a) for a in arg_nodes(cons[0])][1:3] == ["outputs", "inputs"]
+    ri.check(okc, "actOnBeginBuildDecl|command-built-with-counts", "", "the command is not built from (rule, outputs, inputs, explicit count, implicit count)", bd2)
+    want = {"explicitInputs_begin": "inputs.begin()", "explicitInputs_end": "explicitInputs_begin() + getNumExplicitInputs()", "implicitInputs_begin": "explicitInputs_end()",
+            "implicitInputs_end": "implicitInputs_begin() + getNumImplicitInputs()", "orderOnlyInputs_begin": "implicitInputs_end()", "orderOnlyInputs_end": "inputs.end()",
+            "getNumExplicitInputs": "numExplicitInputs", "getNumImplicitInputs": "numImplicitInputs"}
+    for nm, w_ in sorted(want.items()):
+        g_ = [x for x in prog.fns("ninja::Command::" + nm)]
+        if len(g_) != 1:
+            raise AnalysisBroken("Command::%s not found" % nm)
+        rets = [x for x in g_[0].nodes if x.get("k") == "return"]
+        got = expr_plain(rets[0].child("e")) if len(rets) == 1 else "?"
+        flat = lambda t: t.replace("this->", "").replace("(", "").replace(")", "").replace(" ", "")
+        ri.check(flat(got) == flat(w_), "Command::%s" % nm, "", "Command::%s returns %s, expected %s" % (nm, got, w_), g_[0])
+    lx = prog.fn("ninja::Lexer::lex")
+    sets = [c for c in lx.calls() if (c.get("fn") or "").endswith("setTokenKind") and any(x.get("n") in ("Pipe", "PipePipe") for x in c.walk() if x.get("k") == "ref")]
+    bfl = BranchFacts(lx, kill="assign")
+    okl = len(sets) == 2
+    for c in sets:
+        k_ = [x.get("n") for x in c.walk() if x.get("k") == "ref" and x.get("n") in ("Pipe", "PipePipe")][0]
+        st = bfl.at_node(c) or frozenset()
+        first = any(p_ and a_ in ("(124 == c)", "switch:c=124") for a_, p_ in st)
+        second = any(p_ and a_.startswith("(124 == ") and a_ != "(124 == c)" for a_, p_ in st)
+        okl = okl and first and ((k_ == "PipePipe") == second)
+    ri.check(okl, "Lexer::lex|pipe-tokens", "", "`|` / `||` are not lexed as Pipe / PipePipe", lx)
+
+    return ri
+
+
 def run(ctx):
     prog, rep = ctx.prog, ctx.report
 
@@ -154,6 +214,17 @@ def run(ctx):
     stores = [n for n in g.nodes if n.get("k") == "call" and n.get("op") == "=" and "getParameters" in expr_str(n)]
     r.check(len(evs) == 1 and len(stores) == 1 and "value" in expr_str(arg_nodes(stores[0])[0] if arg_nodes(stores[0]) else None),
             "binding|build-level-eager", "", "build-level binding is not stored as the evaluated value", g)
+    # ...and only against the enclosing file / subninja scope: bindings already made on the same build statement are not visible to later ones
+    readers = []
+    for h in [g] + prog.lambdas_of(g):
+        for c in h.calls():
+            if c.get("k") == "call" and "obj" in c and "getParameters" in expr_str(c.child("obj")) and \
+                    (c.get("fn") or "").split("::")[-1] in ("find", "lookup", "count", "at", "begin", "end", "equal_range", "contains"):
+                readers.append((h, c))
+    scope_arg = [expr_plain(arg_nodes(c)[1]) for c in evs if len(arg_nodes(c)) == 3]
+    r.check(not readers and (scope_arg == ["getCurrentScope()"] or not scope_arg), "binding|build-level-sees-file-scope-only", "",
+            "the value of a build-level binding is evaluated with access to the bindings already made on the same build statement (Ninja evaluates it in the "
+            "enclosing file scope only)", readers[0][0] if readers else g, readers[0][1] if readers else None)
     g = prog.fn("ManifestLoaderImpl::actOnRuleBindingDecl")
     r.check(not g.calls("evalString"), "binding|rule-level-raw", "", "rule-level binding is evaluated at declaration time", g)
     g = prog.fn("ManifestLoaderImpl::actOnIncludeDecl")
@@ -220,61 +291,7 @@ def run(ctx):
     okd = any("getCurrentScope" in expr_str(c.child("obj")) for c in rdcl.calls() if "obj" in c and "getRules" in expr_str(c)) and not walks_parents(rdcl)
     rs.check(okd, "actOnBeginRuleDecl|duplicate-only-in-own-scope", "", "a rule declaration is checked against / stored in something other than the current scope", rdcl)
 
-    # ---------------------------------------------------------------- input classes
-    ri = rep.rule("R-INPUT-CLASSES", "explicit, implicit and order-only inputs: `|` starts the implicit and `||` the order-only inputs; the parser counts the explicit "
-                                     "inputs before `|` and the implicit ones between `|` and `||`; the command's accessors partition its input list in that "
-                                     "order with those counts; the loader passes both counts on in that order", floor=7)
-    pb = prog.fn("ParserImpl::parseBuildSpecifier")
-    bfp = BranchFacts(pb, kill="assign")
-    decls = {v["n"]: pb.nodes[v["init"]] for d in pb.nodes if d.get("k") == "decl" for v in d["vars"] if "init" in v}
-    consumes = [c for c in pb.calls() if (c.get("fn") or "").endswith("consumeIfToken")]
-    kinds = [[x.get("n") for x in arg_nodes(c)[0].walk() if x.get("k") == "ref" and x.get("dk") == "enumconst"][0] for c in consumes if arg_nodes(c)]
-    pk = [k_ for k_ in kinds if k_ in ("Pipe", "PipePipe")]
-    ri.check(pk == ["Pipe", "PipePipe"], "parseBuildSpecifier|pipe-then-pipepipe", "%s" % pk, "input class separators are consumed as %s" % pk, pb)
-    ne, ni = decls.get("numExplicitInputs"), decls.get("numImplicitInputs")
-    pipes = {k_: c for k_, c in zip(kinds, consumes)}
-    ok = ne is not None and expr_plain(ne) == "inputs.size()" and "Pipe" in pipes and \
-        cfg.pos_of(pb, [n for n in pb.nodes if n.get("k") == "decl" and any(v["n"] == "numExplicitInputs" for v in n["vars"])][0]) is not None
-    if ok:
-        dne = [n for n in pb.nodes if n.get("k") == "decl" and any(v["n"] == "numExplicitInputs" for v in n["vars"])][0]
-        dni = [n for n in pb.nodes if n.get("k") == "decl" and any(v["n"] == "numImplicitInputs" for v in n["vars"])]
-        # explicit count is taken before `|` is consumed; implicit count after it and before `||`
-        ok = cfg.path_exists(pb, cfg.pos_of(pb, pipes["Pipe"]), lambda p, e, t=cfg.pos_of(pb, dne): p == t) is None and len(dni) == 1 and \
-            cfg.dominated_by(pb, cfg.pos_of(pb, dni[0]), lambda p, e, t=cfg.pos_of(pb, pipes["Pipe"]): p == t)[0] and \
-            cfg.path_exists(pb, cfg.pos_of(pb, pipes["PipePipe"]), lambda p, e, t=cfg.pos_of(pb, dni[0]): p == t) is None and \
-            expr_plain(ni).replace(" ", "") in ("(inputs.size()-numExplicitInputs)",)
-    ri.check(ok, "parseBuildSpecifier|counts", "", "explicit / implicit counts are not taken at the `|` and `||` boundaries", pb)
-    act = pb.calls("ParseActions::actOnBeginBuildDecl")
-    ri.check(len(act) == 1 and [expr_plain(a) for a in arg_nodes(act[0])][3:5] == ["numExplicitInputs", "numImplicitInputs"], "parseBuildSpecifier|counts-passed-in-order", "",
-             "counts passed to the actions as %s" % ([expr_plain(a) for a in arg_nodes(act[0])][3:5] if act else None), pb)
-    bd2 = prog.fn("ManifestLoaderImpl::actOnBeginBuildDecl")
-    cons = [n for n in bd2.nodes if n.get("k") in ("construct", "new") and "ninja::Command::Command" in (n.get("fn") or "")]
-    cons = cons or [x for n in bd2.nodes if n.get("k") == "new" for x in n.walk() if x.get("k") == "construct" and "Command::Command" in (x.get("fn") or "")]
-    okc = len(cons) == 1 and [expr_plain(a) for a in arg_nodes(cons[0])][-2:] == ["numExplicitInputs", "numImplicitInputs"] and \
-        [expr_plain(a) for a in arg_nodes(cons[0])][1:3] == ["outputs", "inputs"]
-    ri.check(okc, "actOnBeginBuildDecl|command-built-with-counts", "", "the command is not built from (rule, outputs, inputs, explicit count, implicit count)", bd2)
-    want = {"explicitInputs_begin": "inputs.begin()", "explicitInputs_end": "explicitInputs_begin() + getNumExplicitInputs()", "implicitInputs_begin": "explicitInputs_end()",
-            "implicitInputs_end": "implicitInputs_begin() + getNumImplicitInputs()", "orderOnlyInputs_begin": "implicitInputs_end()", "orderOnlyInputs_end": "inputs.end()",
-            "getNumExplicitInputs": "numExplicitInputs", "getNumImplicitInputs": "numImplicitInputs"}
-    for nm, w_ in sorted(want.items()):
-        g_ = [x for x in prog.fns("ninja::Command::" + nm)]
-        if len(g_) != 1:
-            raise AnalysisBroken("Command::%s not found" % nm)
-        rets = [x for x in g_[0].nodes if x.get("k") == "return"]
-        got = expr_plain(rets[0].child("e")) if len(rets) == 1 else "?"
-        flat = lambda t: t.replace("this->", "").replace("(", "").replace(")", "").replace(" ", "")
-        ri.check(flat(got) == flat(w_), "Command::%s" % nm, "", "Command::%s returns %s, expected %s" % (nm, got, w_), g_[0])
-    lx = prog.fn("ninja::Lexer::lex")
-    sets = [c for c in lx.calls() if (c.get("fn") or "").endswith("setTokenKind") and any(x.get("n") in ("Pipe", "PipePipe") for x in c.walk() if x.get("k") == "ref")]
-    bfl = BranchFacts(lx, kill="assign")
-    okl = len(sets) == 2
-    for c in sets:
-        k_ = [x.get("n") for x in c.walk() if x.get("k") == "ref" and x.get("n") in ("Pipe", "PipePipe")][0]
-        st = bfl.at_node(c) or frozenset()
-        first = any(p_ and a_ in ("(124 == c)", "switch:c=124") for a_, p_ in st)
-        second = any(p_ and a_.startswith("(124 == ") and a_ != "(124 == c)" for a_, p_ in st)
-        okl = okl and first and ((k_ == "PipePipe") == second)
-    ri.check(okl, "Lexer::lex|pipe-tokens", "", "`|` / `||` are not lexed as Pipe / PipePipe", lx)
+    r_input_classes(prog, rep)
 
     # ---------------------------------------------------------------- escapes
     r = rep.rule("R-ESCAPES", "evalString handles exactly Ninja's $-escapes ($\\n, $ , $:, $$, ${name}, $name) and reports everything else", floor=3)
@@ -385,6 +402,10 @@ def var_assigned_from(f, call):
 
 
 VARIANTS = [
+    dict(name="build-binding-sees-earlier-build-bindings", file="lib/Ninja/ManifestLoader.cpp",
+         old="    SmallString<256> value;\n    evalString(valueTok, getCurrentScope(), value);\n    \n    decl->getParameters()[name] = value.str();",
+         new="    SmallString<256> value;\n    llvm::raw_svector_ostream os(value);\n    evalString(nullptr, StringRef(valueTok.start, valueTok.length), os,\n               /*Lookup=*/ [&](void*, StringRef var, raw_ostream& result) {\n                 auto it = decl->getParameters().find(var);\n                 if (it != decl->getParameters().end())\n                   result << it->second;\n                 else\n                   result << getCurrentScope().lookupBinding(var);\n               },\n               /*Error=*/ [this, &valueTok](const std::string& msg) {\n                 error(msg, valueTok);\n               });\n    decl->getParameters()[name] = value.str();",
+         expect=("R-LOOKUP-ORDER", "build-level-sees-file-scope-only")),
     dict(name="implicit-count-includes-order-only", file="lib/Ninja/Parser.cpp",
          edits=[("  unsigned numImplicitInputs = inputs.size() - numExplicitInputs;\n\n  // Parse the order-only inputs, if present.\n  if (consumeIfToken(Token::Kind::PipePipe)) {\n    while (tok.tokenKind == Token::Kind::String) {\n      inputs.push_back(consumeExpectedToken(Token::Kind::String));\n    }\n  }\n",
                  "  // Parse the order-only inputs, if present.\n  if (consumeIfToken(Token::Kind::PipePipe)) {\n    while (tok.tokenKind == Token::Kind::String) {\n      inputs.push_back(consumeExpectedToken(Token::Kind::String));\n    }\n  }\n  unsigned numImplicitInputs = inputs.size() - numExplicitInputs;\n")],
